@@ -342,6 +342,26 @@ var (
 	rePCEVCol   = regexp.MustCompile(`(?i)\bpost_commit_effective_volumes\b`)
 )
 
+// UnscopedRead: a read statement with more references to tables of the ledger's bucket than `ledger = '<name>'`
+// predicates. Legitimate while the ledger is alone in its bucket (the alone-in-bucket shortcut of
+// newScopedSelect); judged by checkReadsAreScoped against the bucket's population at that moment.
+type UnscopedRead struct {
+	Task   string
+	Ledger string
+	Bucket string
+	Event  uint64
+	Refs   int
+	Scoped int
+	Tables []string
+	SQL    string
+}
+
+func (w *World) eventNow() uint64 {
+	w.db.mu.Lock()
+	defer w.db.mu.Unlock()
+	return w.eventCtr
+}
+
 func (w *World) auditRead(ctx context.Context, query string) {
 	l, _ := ctx.Value(readLedgerKey).(*ledger.Ledger)
 	if l == nil {
@@ -351,12 +371,31 @@ func (w *World) auditRead(ctx context.Context, query string) {
 	if !strings.HasPrefix(strings.ToLower(q), "select") && !strings.HasPrefix(strings.ToLower(q), "with") {
 		return
 	}
-	add := func(feature string) {
-		if len(q) > 300 {
-			q = q[:300] + "..."
+	short := q
+	if len(short) > 300 {
+		short = short[:300] + "..."
+	}
+	// ledger scoping: every reference to a table of the bucket needs its own ledger predicate
+	reRef := regexp.MustCompile(`(?i)\b(?:from|join)\s+(?:\(\s*)?"?` + regexp.QuoteMeta(l.Bucket) + `"?\."?(\w+)"?`)
+	reScope := regexp.MustCompile(`(?i)\bledger"?\s*=\s*'` + regexp.QuoteMeta(strings.ReplaceAll(l.Name, "'", "''")) + `'`)
+	refs := reRef.FindAllStringSubmatch(q, -1)
+	scoped := len(reScope.FindAllString(q, -1))
+	if len(refs) > scoped {
+		u := UnscopedRead{Task: taskKeyOf(ctx), Ledger: l.Name, Bucket: l.Bucket, Refs: len(refs), Scoped: scoped, SQL: q}
+		for _, m := range refs {
+			u.Tables = append(u.Tables, strings.ToLower(m[1]))
 		}
+		if len(u.SQL) > 1500 {
+			u.SQL = u.SQL[:1500] + "..."
+		}
+		u.Event = w.eventNow()
 		w.mu.Lock()
-		w.misreads = append(w.misreads, FeatureMisread{Task: taskKeyOf(ctx), Ledger: l.Name, Feature: feature, Value: l.Features[feature], SQL: q})
+		w.unscoped = append(w.unscoped, u)
+		w.mu.Unlock()
+	}
+	add := func(feature string) {
+		w.mu.Lock()
+		w.misreads = append(w.misreads, FeatureMisread{Task: taskKeyOf(ctx), Ledger: l.Name, Feature: feature, Value: l.Features[feature], SQL: short})
 		w.mu.Unlock()
 	}
 	if reFromMoves.MatchString(q) {
